@@ -19,7 +19,7 @@ func init() {
 	Props["C07"] = &PropSpec{
 		ID: "C07", Level: "exploration",
 		Technique: "deterministic simulation: independent fsck of every quiescent disk image reached by the sequential, crash-recovery and concurrent engines",
-		Rule: "one case = an engine run (generated history; later: crash recovery, concurrent run) whose every quiescent checkpoint (after Flush, after Close, after GC+Flush, after recovery) is checked by an independent parser of header, index log, bucket table/snapshot, primary and freelist files; " +
+		Rule: "one case = an engine run — 35% sequential histories, 25% histories with GC cycles, interrupted cycles and reopen, 20% crash-recovery runs (8 crash images per history, fsck after recovery + flush, after follow-up ops, GC cycles and reopen), 20% concurrent runs with GC tasks (fsck after join + flush) — whose every quiescent checkpoint is checked by an independent parser of header, index log, bucket table/snapshot, primary and freelist files, in two modes (table rebuilt by log scan; live table or snapshot file) that must agree; only fsck failures are reported here; " +
 			"non-trivial = at least one checkpoint was checked on a store where two keys share a bucket or a file rolled over; distinct = distinct (plan hash, schedule hash)",
 		Nontrivial: func(o *RunOut) bool {
 			return o.Probes["fsck"] > 0 && (o.Probes["bucket-shared"] > 0 || o.Probes["index-rolled"] > 0 || o.Probes["primary-rolled"] > 0)
@@ -82,7 +82,7 @@ func init() {
 			return o.Probes["index-gc"]+o.Probes["primary-gc"] > 0 && o.Probes["overlap-same-key-write"]+o.Probes["overlap-same-bucket-write"] > 0
 		},
 		Assumptions: concAssume,
-		Quick:       45, Thorough: 900, Real: commonReal, Simulated: commonSim,
+		Quick:       60, Thorough: 900, Real: commonReal, Simulated: commonSim,
 	}
 	Props["C02"] = &PropSpec{
 		ID: "C02", Level: "exploration",
